@@ -66,6 +66,7 @@ class FnSpec:
         self.ghosts = []     # (where, regex, nth, text)
         self.attrs = []
         self.rewrites = []   # extra per-fn rewrites: (regex, repl) -- logged as T7x
+        self.sigrewrites = []
         self.nobody = False
         self.opens = []
         self.vis = None
@@ -119,6 +120,13 @@ def parse_vc(ident, text):
                 fs.sigsuffix = val; sec = None
             elif key == "hoisted_items":
                 fs.hoisted = val in ("yes", "true"); sec = None
+            elif key == "sigrewrite":
+                # sigrewrite: /regex/ => replacement   (applied to the text of the signature; T8-style type-position rewrite
+                # that is specific to one function, logged as T8x; zero matches = lost anchor)
+                m = re.match(r"/(.*)/\s*=>\s*(.*)$", val)
+                if not m:
+                    raise ScanError("bad sigrewrite in %s" % ident)
+                fs.sigrewrites.append((m.group(1), m.group(2))); sec = None
             elif key in ("rewrite", "rewrite!"):
                 # rewrite: /regex/ => replacement     (`rewrite!`: the construct must be present - a ghost-only annotation
                 # (T12 closure contract) whose loss would leave the proof without a needed fact: 0 matches = lost anchor)
@@ -214,6 +222,7 @@ class Out:
         return "\n".join(self.lines) + "\n"
 
 class Unit:
+    lemmas = ()
     def __init__(self, name):
         self.name = name
         self.out = Out()
@@ -579,7 +588,16 @@ def add_fn(unit, fs):
         sigt = sigt[1:]
     while sigt and sigt[-1].k == "ws":
         sigt = sigt[:-1]
-    _emit_tokens_t8(unit, sigt, fs.file, where)
+    if fs.sigrewrites:
+        sigtext = "".join(t.s for t in sigt)
+        for rx, rep in fs.sigrewrites:
+            if not re.search(rx, sigtext):
+                raise ScanError("lost anchor: sigrewrite /%s/ in %s has no match" % (rx, fs.ident))
+            sigtext = re.sub(rx, rep, sigtext)
+            unit.log.append("T8x %s: signature rewrite /%s/ => %s" % (where, rx, rep))
+        o.write(apply_t8(sigtext, where, unit.log), ("src", fs.file, sigt[0].line if sigt else 0))
+    else:
+        _emit_tokens_t8(unit, sigt, fs.file, where)
     o.nl()
     clauses = []
     for kind, lst in (("requires", fs.requires), ("ensures", fs.ensures)):
@@ -703,7 +721,28 @@ def assemble(unit_name, twin=False):
     path = os.path.join(CONTRACTS, "units", unit_name + ".rs")
     _process(unit, path, twin)
     text = unit.out.finish()
+    unit.lemmas = scan_lemmas(text)
     return unit, text
+
+def scan_lemmas(text):
+    """property-level lemmas: a line `// @props: C01 C08 [-- what it says]` directly above `[pub] [broadcast] proof fn NAME`
+    makes NAME an obligation of those properties.  Returns [{name, props, doc, first, last}] (1-based line range up to
+    the next top-level item)."""
+    L = text.split("\n")
+    starts = [i for i, l in enumerate(L) if re.match(r"\s*(pub(\([a-z]+\))?\s+)?(open\s+|closed\s+|broadcast\s+|uninterp\s+)*(proof|spec|exec)?\s*fn\s+\w+", l)
+              or re.match(r"\s*(pub\s+)?(struct|enum|impl|trait|mod|const|type)\b", l)]
+    out = []
+    for i, l in enumerate(L):
+        m = re.match(r"\s*//\s*@props:\s*((?:C\d+\s*)+)(?:--\s*(.*))?$", l)
+        if not m or i + 1 >= len(L):
+            continue
+        m2 = re.match(r"\s*(?:pub\s+)?(?:broadcast\s+)?proof\s+fn\s+(\w+)", L[i + 1])
+        if not m2:
+            continue
+        nxt = [k for k in starts if k > i + 1]
+        out.append({"name": m2.group(1), "props": m.group(1).split(), "doc": (m.group(2) or "").strip(),
+                    "first": i + 2, "last": (nxt[0] if nxt else len(L))})
+    return out
 
 def _twin(fs, twin):
     """vacuity probes.  "entry": `assert(false)` at the start of every contracted body (must fail: the
